@@ -301,7 +301,7 @@ def worker_main(args):
             out["capped"] = True
             break
         seed = case_seed(args.seed, args.prop, i)
-        src = RandomSource(seed)
+        src = RandomSource(seed, forced=json.loads(os.environ.get("AMRK_FORCE", "{}")))
         r = run_case(mod, src, args.tier)
         out["cases"] += 1
         out["events"] += r.events
@@ -419,6 +419,7 @@ def main(argv=None):
     ap.add_argument("prop")
     ap.add_argument("--tier", default=os.environ.get("VERIF_TIER", "quick"))
     ap.add_argument("--replay")
+    ap.add_argument("--case", type=int)
     ap.add_argument("--cases", type=int)
     ap.add_argument("--procs", type=int, default=int(os.environ.get("AMRK_PROCS", "16")))
     ap.add_argument("--seed", type=int, default=int(os.environ.get("VERIF_SEED", "0") or 0))
@@ -441,6 +442,17 @@ def main(argv=None):
 
     if args.replay:
         return replay_main(args)
+    if args.case is not None:
+        mod = importlib.import_module(f"sim.props.{args.prop.lower()}")
+        os.environ.update({k: v for k, v in child_env().items() if k in ("TQDM_DISABLE", "MPLBACKEND", "MPLCONFIGDIR", "AMR_KITCHEN_VERIF")})
+        r = run_case(mod, RandomSource(case_seed(args.seed, args.prop, args.case), forced=json.loads(os.environ.get("AMRK_FORCE", "{}"))), args.tier, keep_events=True)
+        print(f"case {args.case}: status={r.status} sig={r.sig}\n  msg={r.msg}\n  sample={r.sample}\n  stats={r.stats}")
+        if args.verbose:
+            for e in r.event_log:
+                print("   ", e)
+        if r.tb:
+            print(r.tb)
+        return 0
     if args.worker:
         if args.wall_cap is None:
             args.wall_cap = 1e9
